@@ -328,11 +328,22 @@ Definition obs_eqb (st : lle_st) (s : strm) (t : option trace) (e : lobs) : bool
      end
   && opt_eqb trace_eqb t (ob_trace e).
 
+(* Q arithmetic does not reduce fractions; between two steps of a history the comparator replaces every
+   number of the model state by its reduced form (Qred q == q), which keeps the terms small.  Each step is
+   still computed by [lstep] itself. *)
+Definition vred (v : vec) : vec := map Qred v.
+Definition norm_st (st : lle_st) : lle_st :=
+  mkst (option_map vred (sK st)) (option_map Qred (sphi st)) (Qred (sT st)) (vred (sz st)) (schems st)
+       (tolT st) (tolz st).
+Definition norm_strm (s : strm) : strm :=
+  mkstrm (vred (m_l s)) (vred (m_L s)) (vred (m_o s)) (Qred (tcT s)) (Qred (tcP s)).
+
 Fixpoint lrun_check (E : env) (p : lle_st * strm) (ops : list lop) (exp : list lobs) : bool :=
   match ops, exp with
   | [], [] => true
   | op :: ops', e :: exp' =>
     let '(st', s', t) := lstep E p op in
+    let st' := norm_st st' in let s' := norm_strm s' in
     obs_eqb st' s' t e && lrun_check E (st', s') ops' exp'
   | _, _ => false
   end.
